@@ -1066,6 +1066,15 @@ def m_sorted(it, v, key=None, reverse=False):
         return sorted(items, reverse=reverse)
     if len(items) <= 1:
         return list(items)
+    # tuples whose first components are concrete and pairwise distinct: the order is decided by them alone
+    if key is None and all(isinstance(x, tuple) and x and not has_sym(x[0]) for x in items):
+        firsts = [x[0] for x in items]
+        try:
+            if len(set(firsts)) == len(firsts):
+                order = sorted(range(len(items)), key=lambda i: firsts[i], reverse=reverse)
+                return [items[i] for i in order]
+        except TypeError:
+            pass
     raise OutOfSubset("sorted() over symbolic items")
 
 
